@@ -375,7 +375,7 @@ static void check_pvss(Verdicts &V, const Group &G, std::vector<Party *> &P) {
 	std::vector<size_t> H, Rcv; for (size_t i = 0; i < n; i++) if (!sc.faulty(i)) { H.push_back(i); if (i != d) Rcv.push_back(i); }
 	for (size_t i : H) { Snap &s = P[i]->snap[0]; if (s.threw) { V.viol("exception", 0, "honest party's Share threw " + s.exc, J().kv("party", (long long)i)); return; } if (!s.called) return; }
 	if (Rcv.empty()) return;
-	if (scan_timeouts(V, P, 0) || scan_timeouts(V, P, 1)) return;
+	if (scan_timeouts(V, P, 0)) return;
 	// verdict on the dealer: equal at all honest receivers
 	bool v0 = P[Rcv[0]]->snap[0].ret;
 	for (size_t i : Rcv) { V.evals++; if (P[i]->snap[0].ret != v0) { V.viol("dealer-verdict-disagree", 0, "honest receivers disagree whether the dealer is qualified", J().kv("party_a", (long long)Rcv[0]).kv("ret_a", v0).kv("party_b", (long long)i).kv("ret_b", P[i]->snap[0].ret)); return; } }
@@ -386,6 +386,7 @@ static void check_pvss(Verdicts &V, const Group &G, std::vector<Party *> &P) {
 		if (!v0) { V.viol("honest-not-in-qual", 0, "honest dealer was disqualified by the honest receivers", J().kv("dealer", (long long)d).kv("log_tail", shorten(P[Rcv[0]]->err[0].str(), 1500))); return; }
 	}
 	if (!v0) { count("pvss_dealer_disqualified"); return; }
+	if (scan_timeouts(V, P, 1)) return;
 	// qualified dealer: commitments equal, every honest share satisfies them
 	std::vector<size_t> S = dealer_honest ? H : Rcv;
 	const Snap &s0 = P[S[0]]->snap[0]; bool commits_ok = true;
